@@ -1,4 +1,5 @@
 import DVP.Lemmas.Events
+import DVP.Lemmas.Consts
 import DVP.Lemmas.Record
 /-!
 # C07 — reported events are genuine, correctly located, ordered and unique
@@ -115,5 +116,11 @@ example :
     let p : ℚ → Probe ℚ := fun r => { root := r, success := true, gm := -1, gc := 0, gp := 1, fields := [], direction := 0, terminal := false }
     (DVP.Record.bookAfter (1/1000) (DVP.Record.emptyBook 2) [(0, 1, [(0, p 1), (1, p (1/2))]), (1, 2, [(0, p 1), (1, p (3/2))])]).events =
       [(0, 1), (1, 1/2), (1, 3/2)] := by decide +kernel
+
+/-- the constants of event handling used by the harness and the models (duplicate tolerance `eps^0.7`, probe offsets, receptive
+fields) are the ones in the source text (regenerated `DV.Gen.Consts`) -/
+theorem event_constants_are_the_sources :
+    DV.Gen.Consts.dupTolExp = 7/10 ∧ DV.Gen.Consts.probeExpWide = 1/2 ∧ DV.Gen.Consts.probeExpNarrow = 3/4 ∧
+      DV.Gen.Consts.receptiveFields = [1, 2, 3] := DVP.Consts.event_literals
 
 end DVP.C07
